@@ -21,6 +21,7 @@ out = ['# Which check reports which change (quick tier, seed 1)', '',
        'Changes are applied to scratch copies of /repo by `tools/mutants.py` (never to /repo). `mNN_*` = the single-edit mutants named in properties.jsonl (exact edits in doc/ACCEPTANCE-MUTANTS.md); `s_*` = changes written by fresh sub-agents that saw only the property text and a scratch worktree of /repo (seeded/<id>/: patch.diff, demo.cpp, notes.txt, meta.json), each confirmed (suite passes with it, demo fails with it and passes without).', '',
        '| change | check | result |', '|---|---|---|']
 for (name, pid), v in sorted(res.items()): out.append('| %s | %s | %s |' % (name, pid, v))
+out += ['', '`s_c09_r3_new_url_skips_clear_of_invalid` became behaviour-preserving with the repair F13 (814bb12: a failed parse leaves an empty url, so `is_valid()` and `!empty()` are the same test in `new_url()`); it was reported by C09 / C05 / C01 before that repair and is silent, rightly, since.']
 out += ['', '`s_c14_r4_static_scratch_buffer` (a static scratch string in check_fix_utf8) was written against C14 but leaves single-threaded behaviour unchanged for every input; it is registered for, and reported by, C19.', '', '`m34_dot_host` is property-equivalent (only the error code changes; `is_unc_path` rejects a "." host anyway): silence is correct.']
 open(os.path.join(VERIF, 'seeded', 'RESULTS.md'), 'w').write('\n'.join(out) + '\n')
 for d in glob.glob(os.path.join(VERIF, 'seeded', '*', 'meta.json')):
